@@ -1,3 +1,3 @@
 """Properties not (yet) claimed, with the reason. Entries disappear as checks are built."""
 _PENDING = "check not built yet in this round (planned in DESIGN.md section 2); no claim is made until its harnesses exist and pass"
-NA = {p: _PENDING for p in ["C07","C12","C13","C14","C16","C18","C19"]}
+NA = {p: _PENDING for p in ["C19"]}
